@@ -466,6 +466,30 @@ var limitTmpls = []limitTmpl{
 	},
 }
 
+func init() {
+	// depth spread over two dimensions: 60 function expressions nested in one
+	// another (under the parser's limit), each the head of a suffix chain of
+	// n/60 items (parsed iteratively): the chains are ancestors of one
+	// another in the tree, so the recursion of the later compiler passes
+	// grows with the product unless their depth limit counts across functions
+	for _, suffix := range []struct{ name, item string }{{"index", ".b"}, {"call", "()"}} {
+		item := suffix.item
+		limitTmpls = append(limitTmpls, limitTmpl{
+			name: "nest-functions-x-" + suffix.name + "-chains", what: "60 nested function expressions, each the head of a chain of n/60 '" + item + "' suffixes",
+			limit: 200, quick: []int{6_000, 1_500_000}, more: []int{60_000, 600_000, 1_900_000},
+			gen: func(n int) (string, string) {
+				m := n / 60
+				e := "a" + strings.Repeat(item, m)
+				for k := 0; k < 60; k++ {
+					e = "(function() return " + e + " end)" + strings.Repeat(item, m)
+				}
+				// compiled, never executed (a function value has no fields)
+				return "local a = {}\nif a.never then return " + e + " end\nreturn true\n", "true"
+			},
+		})
+	}
+}
+
 func findLimitTmpl(name string) *limitTmpl {
 	for i := range limitTmpls {
 		if limitTmpls[i].name == name {
